@@ -254,6 +254,29 @@ theorem add_tail_fifo {h : Heap} {head : Nat} {xs : List Nat} {x y : Nat} {fuel 
   have := for_each_visits (fuel := fuel) r2 (by simp; omega)
   simpa using this
 
+/-- LIFO: two `iv_list_add`s (head insertion) are traversed newest first, before whatever was
+there already. -/
+theorem add_front_lifo {h : Heap} {head : Nat} {xs : List Nat} {x y : Nat} {fuel : Nat}
+    (hR : Repr h head xs) (hx : Alloc h x) (hy : Alloc h y) (hfx : x ∉ head :: xs)
+    (hfy : y ∉ head :: xs) (hxy : x ≠ y) (hf : xs.length + 2 ≤ fuel) :
+    ∃ h1 h2, add h x head = some h1 ∧ add h1 y head = some h2 ∧
+      forEach fuel h2 head = some (y :: x :: xs) := by
+  obtain ⟨h1, e1, r1, fr, _⟩ := add_front hR hx hfx
+  have hy' : Alloc h1 y := by
+    by_cases c : y ∈ [x, head, hd xs head]
+    · have hl : hd xs head ∈ head :: xs := hd_mem xs head
+      simp only [List.mem_cons, List.not_mem_nil, or_false] at c
+      rcases c with c | c | c
+      · exact absurd c.symm hxy
+      · exact absurd (c ▸ List.mem_cons_self) hfy
+      · exact absurd (c ▸ hl) hfy
+    · unfold Alloc; rw [fr y c]; exact hy
+  have hfy' : y ∉ head :: x :: xs := by
+    simp only [List.mem_cons, not_or] at hfy ⊢
+    exact ⟨hfy.1, fun c => hxy c.symm, hfy.2⟩
+  obtain ⟨h2, e2, r2, _, _⟩ := add_front r1 hy' hfy'
+  exact ⟨h1, h2, e1, e2, for_each_visits (fuel := fuel) r2 (by simp; omega)⟩
+
 /-! ## Non-vacuity: concrete heaps built by the pointer-level code itself
 Addresses 0..15 hold zeroed records (NULL fields); 0, 1, 2 are used as heads. -/
 
@@ -356,6 +379,11 @@ example : ∃ a b, addTail h1 9 0 = some a ∧ del a 9 = some b ∧ Repr b 0 [7,
 example : ∃ a b, addTail h1 9 0 = some a ∧ addTail a 10 0 = some b ∧
     forEach 8 b 0 = some [7, 4, 5, 6, 9, 10] :=
   add_tail_fifo h1_repr (x := 9) (y := 10) (by decide) (by decide) (by decide) (by decide)
+    (by decide) (by decide)
+
+example : ∃ a b, add h1 9 0 = some a ∧ add a 10 0 = some b ∧
+    forEach 8 b 0 = some [10, 9, 7, 4, 5, 6] :=
+  add_front_lifo h1_repr (x := 9) (y := 10) (by decide) (by decide) (by decide) (by decide)
     (by decide) (by decide)
 
 end Ivy.Props.C06list
